@@ -112,7 +112,7 @@ Proof.
     exists (set_dref V (Some (r0 + v))). split; [apply Hget; auto|]. split; [simpl; discriminate|].
     simpl. rewrite (BU2 u U GU), (BU2 v V GV). lia.
   - intros u U' v ch V' G I GV MV. destruct (Hget' u U' G) as (U & GU & ->). destruct (Hget' v V' GV) as (V & GV0 & ->).
-    simpl in I, MV. destruct (B_ins0 u U v ch GU I) as [_ (V2 & GV2 & Hm)]. rewrite GV0 in GV2. injection GV2 as <-. auto.
+    simpl in I, MV. destruct (B_ins0 u U v ch GU I) as [_ (V2 & GV2 & Hm & _)]. rewrite GV0 in GV2. injection GV2 as <-. auto.
   - intros c C' v ch Lc _ G I. destruct (Hget' c C' G) as (C & GC & ->). simpl in I.
     destruct (B_ins0 c C v ch GC I) as [A _]. apply Hliv. apply Hliv in Lc. lia.
   - intros x X' c Lx _ GX IX Lc _ Hr. destruct (Hget' x X' GX) as (X & GX0 & ->).
